@@ -36,6 +36,9 @@ class _Rec:
     def undecide(self, *a):
         self.ops.append(('undecide', a))
 
+    def leave_open(self, *a):
+        self.ops.append(('leave_open', a))
+
     def obligation(self, *a, **kw):
         self.ops.append(('obligation', a, kw))
 
@@ -61,7 +64,7 @@ def decide_pure(known, *a, **kw):
 
 
 def decide(chk, obligation, impl_rx, must, may, dom, sig, native=None, expect_fmt=None, is_bytes=False,
-           rx_flags=0, full=True, state_limit=300000, count=True):
+           rx_flags=0, full=True, state_limit=40000, count=True):
     """impl_rx: regex text (str/bytes) or compiled pattern.  must/may/dom: relang.Spec (or any automaton).
     sig: dict with at least pattern/flags (strings) used for known-finding matching and the replay.
     native(name) -> bool evaluates the real API on a name (optional, used for confirmation and replay).
@@ -90,9 +93,9 @@ def decide(chk, obligation, impl_rx, must, may, dom, sig, native=None, expect_fm
             return (t[1] and not t[0]) or (t[0] and not t[2])
         try:
             r = R.product_search(autos, bad, limit=state_limit)
-        except R.StateLimit as e:
-            chk.undecide(obligation, f'state limit {e} ({sig.get("pattern")!r})')
-            status = 'undecided'
+        except (R.StateLimit, TimeoutError) as e:
+            chk.leave_open(obligation, f'engine limit ({type(e).__name__} {e}) on {sig.get("pattern")!r} flags {sig.get("flags")}')
+            status = 'open'
             break
         if r is None:
             break
@@ -148,6 +151,6 @@ def decide(chk, obligation, impl_rx, must, may, dom, sig, native=None, expect_fm
     for k, s2 in hits:
         chk.known_hit(k, s2)
     if count:
-        st = {'proved': 'proved', 'known': 'refuted', 'violation': 'refuted', 'undecided': 'undecided'}[status]
+        st = {'proved': 'proved', 'known': 'refuted', 'violation': 'refuted', 'undecided': 'undecided', 'open': 'undecided'}[status]
         chk.obligation(obligation, st, 'relang', time.time() - t0, detail=f'{sig.get("pattern")!r} {sig.get("flags")}')
     return status
